@@ -337,7 +337,7 @@ func runHistory(rnd *rand.Rand, spec *histSpec, dir string) (res *histResult) {
 // generation of histories: a function of (seed, tier, index, kind, tz)
 
 var scenarios = []string{"basic", "same-day-hours", "adjacent-hours", "days-of-one-month", "month-boundary", "year-boundary",
-	"compact-before-rollup", "compact-after-rollup", "tick-thresholds", "tick-race", "reopen-with-pending", "target-compaction", "flush-during-rollup", "random", "random"}
+	"compact-before-rollup", "compact-after-rollup", "tick-thresholds", "tick-race", "reopen-with-pending", "target-compaction", "flush-during-rollup", "target-store-not-open", "random", "random"}
 
 func genSpec(rnd *rand.Rand, j job, c *core.Ctx) *histSpec {
 	s := &histSpec{Idx: j.Idx, Kind: j.Kind, TZ: j.TZ, Seed: c.Seed, Tier: c.Tier}
@@ -483,6 +483,17 @@ func genSpec(rnd *rand.Rand, j job, c *core.Ctx) *histSpec {
 		spot(year, month, day, rnd.Intn(24), "hour")
 		spot(year, month, day, rnd.Intn(24), "hour")
 		steps(fl(0), fl(1), "rollup+flush:0", "rollup", fl(0), fl(1), fl(1), "rollup+flush:1", "rollup+flush:0", "reopen", "rollup", "rollup")
+	case "target-store-not-open":
+		// a rollup job runs while one (or both) of its target stores is not registered: lazily opened stores after a
+		// restart, or idle target segments closed by Shard.EvictSegment. The job must skip that target and keep its marks;
+		// once the store is there again the files go in, exactly once
+		spot(year, month, day, rnd.Intn(24), "hour")
+		spot(year, month, day, rnd.Intn(24), "hour")
+		mode := []string{"reopen-lazy", "reopen-evict"}[rnd.Intn(2)]
+		k1 := []string{"month", "year", "month", "none"}[rnd.Intn(4)]
+		k2 := []string{"month", "year", "year", "none"}[rnd.Intn(4)]
+		steps(fl(0), fl(1), "rollup", fl(0), fl(1), mode+":"+k1, "rollup", "rollup", fl(0), "reopen", "rollup",
+			fl(1), fl(0), []string{"reopen-lazy", "reopen-evict"}[rnd.Intn(2)]+":"+k2, "rollup", "reopen-lazy:"+k1, "rollup", "rollup", "reopen", "rollup")
 	case "reopen-with-pending":
 		spot(year, month, day, 23, "last-hour-of-day")
 		spot(year, month, day, 0, "first-hour-of-day")
@@ -572,6 +583,8 @@ func genSpec(rnd *rand.Rand, j job, c *core.Ctx) *histSpec {
 				steps("tcompact")
 			case r < 17:
 				steps(fmt.Sprintf("force:%d", rnd.Intn(nSpots)))
+			case r < 18:
+				steps([]string{"reopen-lazy", "reopen-evict"}[rnd.Intn(2)]+":"+[]string{"month", "year", "none"}[rnd.Intn(3)], "rollup")
 			default:
 				steps("reopen")
 			}
